@@ -253,7 +253,8 @@ impl<'a, R: Read> Lexer<Scanner<'a, R>> {
                 if !self.scanner.is_lower() {
                     return self.scanner.make_generic_err("Expecting path segment");
                 }
-            } else if !self.scanner.is_lower() {
+            } else {
+                // A path ends at the first token that is not '->'
                 break;
             }
         }
